@@ -479,6 +479,33 @@ def run(ctx):
         if not found:
             res.unknown("K-ROLE", v.fi.short, "(edge[1], edge[0]) in edge_set", "swapped-pair", "no membership test of a (target, source) pair recognised", loc(v.fi, v.fi.node))
     res.assumptions += ["in_degree counts hyperedges in which the node is a SOURCE and out_degree those in which it is a TARGET - the property's own wording, frozen in ROLE_OF"]
+    # ---- Q-STRONG: a hyperedge is strongly reciprocated when EVERY SOURCE node is reached from SOME target node: the decisive test
+    #      is a subset test with the sources on the left (`set(source) <= covered`, covered = what the targets reach).  The crossed
+    #      quantifier - `all(<the reach of t meets the sources> for t in target)`: every target points back to some source - is a
+    #      different relation that still lies between exact and weak
+    with res.guard("Q-STRONG"):
+        res.rules["Q-STRONG"] = "strong reciprocity tests that every source node is among the nodes reached from the targets (sources on the subset side), not that every target reaches some source"
+        sv_ = ctx.view("reciprocity.strong_reciprocity")
+        incs = [n for n in walk_no_nested(sv_.fi.node) if isinstance(n, ast.AugAssign) and isinstance(n.target, ast.Subscript) and isinstance(n.op, ast.Add)]
+        tests = []
+        for n in incs:
+            for i_ in sv_.enclosing_all(n, (ast.If,)):
+                tests.append(i_.test)
+        verdict, why, at = "unknown", "the test that decides strong reciprocity was not recognised", sv_.fi.node
+        for t in tests:
+            ti = sv_.inline(t, depth=2)
+            for c in ast.walk(ti):
+                if isinstance(c, ast.Call) and isinstance(c.func, ast.Attribute) and c.func.attr == "issubset" and "source" in norm(sv_.inline(c.func.value, depth=2)):
+                    verdict, why, at = "ok", "", t
+                if isinstance(c, ast.Compare) and len(c.ops) == 1 and isinstance(c.ops[0], (ast.LtE,)) and "source" in norm(sv_.inline(c.left, depth=2)):
+                    verdict, why, at = "ok", "", t
+                if isinstance(c, ast.Call) and isinstance(c.func, ast.Name) and c.func.id == "all" and c.args and isinstance(c.args[0], (ast.GeneratorExp, ast.ListComp)):
+                    g = c.args[0]
+                    over = norm(sv_.inline(g.generators[0].iter, depth=2))
+                    meets = any((isinstance(x, ast.Call) and isinstance(x.func, ast.Attribute) and x.func.attr in ("isdisjoint", "intersection")) or (isinstance(x, ast.BinOp) and isinstance(x.op, ast.BitAnd)) for x in ast.walk(g.elt))
+                    if "target" in over and "source" not in over and meets and verdict != "ok":
+                        verdict, why, at = "violation", f"`{norm(t)[:70]}` asks that every TARGET node reaches some source node; the definition asks that every SOURCE node is reached from some target node (`set(source) <= covered`): a hyperedge whose targets all point back to one source while another source is unreached is counted, and one with an idle target is not", t
+        res.add("Q-STRONG", sv_.fi.short, norm(at)[:90] if at is not sv_.fi.node else "set(source).issubset(covered)", "sources-covered", verdict, why, loc(sv_.fi, at))
     with res.guard("general lint pack over the property's files"):
         from ..lints import check_pack
 
